@@ -1117,6 +1117,7 @@ pub fn array_fill(
 
     let value = args.first().cloned().unwrap_or(JsValue::Undefined);
 
+    let args = with_numeric_args(args, 1..3);
     let mut arr_ref = arr.borrow_mut();
     let elements = arr_ref
         .array_elements_mut()
@@ -1158,6 +1159,21 @@ pub fn array_fill(
     Ok(Guarded::unguarded(this))
 }
 
+/// Index arguments converted up front: `to_number` on an object argument borrows
+/// that object, and it may be the array the method is about to borrow mutably
+fn with_numeric_args(args: &[JsValue], positions: std::ops::Range<usize>) -> Vec<JsValue> {
+    args.iter()
+        .enumerate()
+        .map(|(i, v)| {
+            if positions.contains(&i) {
+                JsValue::Number(v.to_number())
+            } else {
+                v.clone()
+            }
+        })
+        .collect()
+}
+
 pub fn array_copy_within(
     _interp: &mut Interpreter,
     this: JsValue,
@@ -1169,6 +1185,7 @@ pub fn array_copy_within(
         ));
     };
 
+    let args = with_numeric_args(args, 0..3);
     let mut arr_ref = arr.borrow_mut();
     let elements = arr_ref
         .array_elements_mut()
@@ -1237,6 +1254,7 @@ pub fn array_splice(
         ));
     };
 
+    let args = with_numeric_args(args, 0..2);
     let mut arr_ref = arr.borrow_mut();
     let elements = arr_ref
         .array_elements_mut()
